@@ -28,7 +28,7 @@ type Case struct {
 	Seed    uint64 `json:"seed"`
 }
 
-const maxLen = 262144 + 4096
+const maxLen = 8<<20 + 4096
 
 type arena struct {
 	mem     []byte
@@ -143,6 +143,26 @@ func fill(b []byte, mode string, seed uint64) {
 		for i := 0; i+1 < len(b); i += 2 {
 			w := uint16(uint32(i/2)*odd + off)
 			b[i], b[i+1] = byte(w), byte(w>>8)
+		}
+		return
+	}
+	switch mode {
+	case "zeros", "lastword", "firstword", "oneword":
+		for i := range b {
+			b[i] = 0
+		}
+		if len(b) >= 2 {
+			w := uint16(seed>>3) | 1
+			pos := 0
+			switch mode {
+			case "lastword":
+				pos = len(b) - 2
+			case "oneword":
+				pos = int(seed%uint64(len(b)/2)) * 2
+			case "zeros":
+				return
+			}
+			b[pos], b[pos+1] = byte(w), byte(w>>8)
 		}
 		return
 	}
@@ -399,6 +419,35 @@ func TestCheck(t *testing.T) {
 		}
 	}
 
+	// (3b) multi-MiB lengths (kernels that process long buffers in pieces)
+	huge := []int{1 << 20, 1<<20 + 2, 1 << 22, 1<<22 - 2, 1<<22 + 2, 3 << 20}
+	if cfg.Thorough() {
+		huge = append(huge, 1<<23, 1<<23-32, 1<<21, 5<<20)
+	}
+	for hi, n := range huge {
+		for _, p := range paths {
+			for _, op := range ops {
+				if !mine() {
+					continue
+				}
+				do(Case{Path: p, Op: op, C: uint16(0x3c5a + hi), N: n, AIn: (hi * 8) % 64, AOut: (hi * 24) % 64, AtEnd: true, Fill: "rand", Seed: uint64(n + hi)})
+			}
+		}
+	}
+	// (3c) sparse inputs: all zero, or zero except one word (first, last, somewhere), around the SIMD/word-count thresholds
+	for _, n := range []int{2, 6, 30, 34, 62, 1022, 1024, 1026, 1028, 1030, 2050, 4098, 70000} {
+		for fi, f := range []string{"zeros", "lastword", "firstword", "oneword"} {
+			for _, p := range paths {
+				for _, op := range ops {
+					if !mine() {
+						continue
+					}
+					do(Case{Path: p, Op: op, C: uint16(0x7001 + n), N: n, AIn: 0, AOut: 16, AtEnd: fi%2 == 0, Fill: f, Seed: uint64(n*31 + fi)})
+				}
+			}
+		}
+	}
+
 	// (4) alignment pairs
 	lens := []int{2, 30, 32, 34, 66}
 	if cfg.Thorough() {
@@ -449,7 +498,7 @@ func TestCheck(t *testing.T) {
 			AOut:    rapid.IntRange(0, 63).Draw(rt, "aout"),
 			AtEnd:   rapid.Bool().Draw(rt, "atend"),
 			InPlace: rapid.IntRange(0, 9).Draw(rt, "inplace") == 0,
-			Fill:    "rand",
+			Fill:    rapid.SampledFrom([]string{"rand", "rand", "rand", "rand", "zeros", "lastword", "firstword", "oneword"}).Draw(rt, "fill"),
 			Seed:    rapid.Uint64().Draw(rt, "seed"),
 		}
 		if c.InPlace {
